@@ -318,7 +318,10 @@ class HeapOps:
         self.init_path()
         r = self.h["$alloc"]
         self.h["$alloc"] = r + 1
-        self.path.assume(TAG(r) == I(self.S.CLASSES[cls]), check=False)
+        if cls in self.S.CLASSES:
+            self.path.assume(TAG(r) == I(self.S.CLASSES[cls]), check=False)
+        else:
+            self.path.assume(self.tag_in(r, cls), check=False)  # abstract class: some concrete subclass
         return VRef(r, cls)
 
     def new_list(self, items, cls="list"):
@@ -470,6 +473,11 @@ class HeapOps:
             return self.dict_get(recv, self.ev.lift(args[0]), node, default=args[1] if len(args) > 1 else VNone(), soft=True)
         if name.startswith("__") or True:
             return self.dunder(recv, name, args, kwargs, node, env)
+
+    def global_map_read(self, arr, key_t, ecls):
+        t = arr[key_t]
+        self.path.assume(z3.And(t >= 0, t < self.h["$alloc"], z3.Implies(t != 0, self.tag_in(t, ecls))), check=False)
+        return VRef(t, ecls)
 
     def patternable(self, term):
         """A constant equal to `term` (terms containing ite cannot be used in E-matching patterns)."""
